@@ -422,7 +422,7 @@ func c06r2(c *Ctx) {
 			return isB && b.Name() == "append" && len(ac.Common().Args) == 2 && w.isResult(ac.Common().Args[1], ri)
 		}
 		var bad []string
-		for _, t := range pfLoopTailsAfter(cv, lc.Loop) {
+		for _, t := range loopTailsAfter(cv, lc.Loop) {
 			if ok, at := pfEveryPathPasses(cv, t, lc.Loop.Head, isAcc); !ok {
 				bad = append(bad, fmt.Sprintf("a path to the next iteration (block %d, %s) does not append this phase's list", at.Index, p.blockPos(at)))
 			}
@@ -434,7 +434,7 @@ func c06r2(c *Ctx) {
 			}
 		}
 		eiFn := pfResultIndex(fn.Signature, "error")
-		region := pfIterRegion(cv, lc.Loop.Head)
+		region := iterRegionOf(cv, lc.Loop)
 		if fri < 0 || eiFn < 0 {
 			bad = append(bad, "enclosing function does not return the accumulated list")
 		} else {
@@ -446,7 +446,7 @@ func c06r2(c *Ctx) {
 				if rc.Pred != nil {
 					from = rc.Pred
 				}
-				if !lc.Loop.Head.Dominates(from) {
+				if !behindLoop(lc.Loop, from) {
 					continue
 				}
 				for _, pv := range p.possibleValues(rc.Results[fri]) {
@@ -532,8 +532,8 @@ func (p *Program) c06MappedMeansSlash() bool {
 }
 
 // c06ContainsSlash: v is true exactly when string s contains '/': strings.Contains(s, "/"),
-// strings.ContainsRune(s, '/'), strings.ContainsAny(s, "/"), or strings.Index/IndexByte/IndexRune(s,
-// '/') compared with 0 / -1. Returns s.
+// strings.ContainsRune(s, '/'), strings.ContainsAny(s, "/"), the `found` result of strings.Cut(s, "/"),
+// or strings.Index/IndexByte/IndexRune(s, '/') compared with 0 / -1. Returns s.
 func c06ContainsSlash(v ssa.Value) (ssa.Value, bool) {
 	slash := func(a ssa.Value) bool {
 		if isStringConst(a, "/") {
@@ -542,8 +542,14 @@ func c06ContainsSlash(v ssa.Value) (ssa.Value, bool) {
 		n, isInt := constInt(a)
 		return isInt && n == '/'
 	}
-	if call, _ := asCall(v); call != nil {
-		if isCallTo(call.Common(), "strings.Contains", "strings.ContainsRune", "strings.ContainsAny") && len(call.Common().Args) == 2 && slash(call.Common().Args[1]) {
+	if call, idx := asCall(v); call != nil {
+		if idx < 0 && isCallTo(call.Common(), "strings.Contains", "strings.ContainsRune", "strings.ContainsAny") && len(call.Common().Args) == 2 && slash(call.Common().Args[1]) {
+			return call.Common().Args[0], true
+		}
+		// before, after, found := strings.Cut(s, "/"): found (third result) is Index(s, "/") >= 0.
+		// Only the string separator "/" counts (Cut takes a string, not a rune), and only the
+		// `found` result: `before`/`after` say nothing about whether the separator occurred.
+		if idx == 2 && isCallTo(call.Common(), "strings.Cut") && len(call.Common().Args) == 2 && isStringConst(call.Common().Args[1], "/") {
 			return call.Common().Args[0], true
 		}
 		return nil, false
